@@ -89,7 +89,7 @@ func (f *MakeArray) Call(s *slip.Scope, args slip.List, depth int) slip.Object {
 		dims = []int{int(ta)}
 	case slip.List:
 		for _, v := range ta {
-			if num, _ := v.(slip.Fixnum); 0 < num {
+			if num, ok := v.(slip.Fixnum); ok && 0 <= num {
 				dims = append(dims, int(num))
 			} else {
 				slip.TypePanic(s, depth, "dimensions", args[0], "list of positive fixnums")
